@@ -46,7 +46,7 @@ def run(ctx):
     found_input |= U.unit_differential_c05(ctx)
 
     exe = ctx.compile_harness([os.path.join(C01, "harness", "loop.cc")], "loop", libs=M.LIBS, test_includes=True)
-    specs = M.gen_specs(ctx.rng, ctx.tier) + M.gen_specs_extra(ctx.rng, ctx.tier) + f5_specs(ctx.rng, ctx.tier)
+    specs = M.gen_specs(ctx.rng, ctx.tier) + M.gen_specs_extra(ctx.rng, ctx.tier) + M.gen_specs_sweep(ctx.rng, ctx.tier) + M.gen_specs_msc(ctx.rng, ctx.tier) + f5_specs(ctx.rng, ctx.tier)
     rc, out = M.execute(ctx, exe, specs)
     runs = M.parse_runs(out, specs)
     if rc != 0 or len(runs) != len(specs) or any(r.end is None for r in runs):
@@ -58,6 +58,9 @@ def run(ctx):
         s = run_.spec
         ctx.count("problem:%s/cut%d%s" % (s["problem"], s["cutmode"], "/tiny-stack" if s["stack"] < 1 else ""))
         ctx.count("slots:%d" % s["slots"])
+        for _o in ("disable_integral_xs", "linear_loss_limit", "lowest", "min_range", "msc_emin", "msc_xs"):
+            if s.get(_o):
+                ctx.count("option:" + _o)
         ctx.count("track_order:" + M.TRACK_ORDERS[s.get("track_order", 0)])
         if s.get("fixed_limit"):
             ctx.count("fixed_step_limiter")
